@@ -646,7 +646,19 @@ pub fn c07_unflushed_answers_at_hangup(rec: &mut Rec, rng: &mut Rng, answered_be
     let j = sim.connect(rec);
     sim.poll(rec);
     sim.send_next(rec, rng, j);
+    while !sim.plans[j].outq.is_empty() {
+        sim.send_next(rec, rng, j);
+    }
     sim.poll(rec);
+    sim.poll(rec);
+    // in every other instance the NEWCOMER's request is answered first, the departed client's old ones afterwards: which
+    // connection an answer belongs to is decided by the request it answers, never by counting
+    if (answered_before + leave) % 2 == 1 {
+        while let Some(idx) = sim.w.held.iter().position(|h| h.client == Some(j)) {
+            sim.respond(rec, rng, idx);
+            sim.poll(rec);
+        }
+    }
     while let Some(idx) = sim.w.held.iter().position(|h| h.tag.starts_with(&format!("/c{}/", a))) {
         sim.respond(rec, rng, idx);
         sim.poll(rec);
@@ -657,6 +669,7 @@ pub fn c07_unflushed_answers_at_hangup(rec: &mut Rec, rng: &mut Rng, answered_be
     sim.w.client_read(rec, j);
     sim.settle(rec, rng);
     common_checks(rec, &mut sim, "C07");
+    check_yield_once(rec, &sim);
     sim.w.teardown();
 }
 
@@ -712,7 +725,9 @@ pub fn c07_partial_write_while_others_are_answered(rec: &mut Rec, rng: &mut Rng,
     }
     sim.w.client_read(rec, a);
     let (resps, leftover) = split_responses(&sim.w.clients[a].received);
-    let clean = resps.len() == 1 && leftover == 0 && resps[0].1.iter().skip_while(|x| **x != b':').skip(1).all(|x| *x == b'A');
+    // (interim 100 Continue responses may precede it if A's request asked for them)
+    let finals: Vec<&(u16, Vec<u8>)> = resps.iter().filter(|r| r.0 != 100).collect();
+    let clean = finals.len() == 1 && finals[0].0 == 200 && leftover == 0 && finals[0].1.iter().skip_while(|x| **x != b':').skip(1).all(|x| *x == b'A');
     if !clean {
         rec.oracle_fail("C07", &format!("client A received {} responses (+{} stray bytes); its large answer must arrive intact although other clients were answered while it was half-written", resps.len(), leftover), &sim.w.log);
     }
